@@ -270,6 +270,35 @@ def run(ctx, prog, res):
     r8.floor(8)
 
 
+    # R9 -------------------------------------------------------------------------------------
+    r9 = res.rule("C07.R9", "the last value of a frame has no successor inside the frame (a year after 9999 is not a year): where an inclusive range is turned into a half-open one, the successor of its end is taken only on the paths where the end was compared with FRAME_END and differs from it, and the paths where it equals FRAME_END end at Frame::End; symmetrically the predecessor is only taken of a Frame::Val")
+    import pathterms
+    n9 = 0
+    for fid, fn in sorted(prog.fns.items()):
+        if not (fid.endswith("Frame::<T>::to_range_strict") or fid.endswith("Frame::<T>::to_range_inclusive")):
+            continue
+        for rb, b in fn.live_blocks():
+            if b["term"]["k"] != "return":
+                continue
+            for path in pathterms.acyclic_paths(fn, rb):
+                ret = flow.shape_on(fn, 0, path)
+                conds = [(flow.shape_on(fn, op, path), taken, excl) for _, op, taken, excl in pathterms.conditions(fn, path)]
+                for m in re.finditer(r"Framable::succ\(([^()]*(?:\([^()]*\))?[^()]*)\)", ret):
+                    n9 += 1
+                    arg = m.group(1)
+                    guarded = any(t.startswith("PartialEq::eq(") and arg in t and "FRAME_END" in t and ((taken == [0]) or (taken is None and excl and 0 not in excl)) for t, taken, excl in conds)
+                    r9.check(guarded, {"fn": fid.split("::")[-1], "succ_of": arg, "only_when": "!= FRAME_END"}, "C07.R9:succ:%s" % fid.split("::")[-1],
+                             "%s takes the successor of the end of an inclusive range without having excluded FRAME_END: for a dimension whose successor does not wrap (years: 9999 -> 10000) the paving gets a bound outside the frame, and the normal form contains a range like `10000-9999` that cannot be read back" % fid, lib.where_of(fn))
+                if fid.endswith("to_range_strict") and "Frame::End{}" in ret:
+                    n9 += 1
+                    eq_true = any(t.startswith("PartialEq::eq(") and "FRAME_END" in t and ((taken is not None and taken != [0]) or (taken is None and excl and 0 in excl)) for t, taken, excl in conds)
+                    r9.check(eq_true, {"fn": "to_range_strict", "Frame::End_only_when": "end == FRAME_END"}, "C07.R9:end", "to_range_strict ends a range at Frame::End on a path where its end was not found equal to FRAME_END", lib.where_of(fn))
+                for m in re.finditer(r"Framable::pred\(([^()]*)\)", ret):
+                    n9 += 1
+                    r9.check("@Val.0" in m.group(1), {"fn": fid.split("::")[-1], "pred_of": m.group(1)}, "C07.R9:pred:%s" % fid.split("::")[-1], "%s takes the predecessor of %s, which is not the payload of a Frame::Val" % (fid, m.group(1)), lib.where_of(fn))
+    r9.floor(6)
+
+
 def _is_loop_exhausted_exit(f, bb, loops):
     """True when block bb is only reachable through the exhaustion exit of the outermost loop
     (the iterator returned None), i.e. it is the normal end of the universal check."""
@@ -301,3 +330,4 @@ def _is_loop_exhausted_exit(f, bb, loops):
             return False
         cur = idom
     return False
+
